@@ -31,13 +31,13 @@ const (
 
 // Gen draws a fault-free case.
 func Gen(rt *rapid.T) Case {
-	remote := fsmodel.GenTree(rt, 10, false)
+	remote := fsmodel.GenTree(rt, 10, true)
 	max := 15
 	if hx.Thorough() {
 		max = 40
 	}
 	c := Case{Remote: fsmodel.Flatten(remote), FailAt: -1, Disk: hx.Chance(rt, 8, "disk")}
-	ops := fsmodel.GenHistory(rt, fsmodel.GenCfg{MinOps: 1, MaxOps: max, NoisyPaths: true, Initial: remote, DropFailingMutations: true,
+	ops := fsmodel.GenHistory(rt, fsmodel.GenCfg{MinOps: 1, MaxOps: max, OddNames: true, NoisyPaths: true, Initial: remote, DropFailingMutations: true,
 		Weights: map[string]int{"Remove": 10, "RemoveAll": 8, "CopyDirectory": 7, "Copy": 6, "MkdirAll": 10,
 			"ReadDir": 2, "IsExist": 1, "IsDir": 1, "IsFile": 1, "ReadFile": 2, "Reader": 1, "Lstat": 1}})
 	ncommit := hx.Uniform(rt, 3, "ncommit")
